@@ -18,6 +18,9 @@ CHECKS = {
  "C12": dict(cat="model_checking", tech="TLA+ IntMapSpec.tla/StructSpec.tla: TLC validation of operation traces of the real robin-hood table (with bucket-layout invariants on dumps) and of generated struct programs",
    text="IntMapSpec.tla is the abstract finite function plus the robin-hood layout invariants on bucket dumps; every operation on the real table (hook VerifIntMap) over collision-heavy key sets crossing every growth/shrink threshold is validated by TLC, including dumps. StructSpec.tla states field independence, zero values, reference semantics and method presence; generated struct programs (0..200 fields, methods, filler names that shift interned field indices, aliases, an instance of a type defined from the struct type) are run and every printed observation validated by TLC.",
    note="type adoption by Assign is covered through C04's field positions, not at table level; the table hook forwards to the unexported table unchanged", ref="6/C12"),
+ "C15": dict(cat="model_checking", tech="TLA+ Loader.tla/LoaderOrder.tla: TLC checks the ordering loop of load.go against the spec on every digraph (N<=4); TLC validates marker traces of real loads of materialised import graphs",
+   text="LoaderOrder.tla transcribes load.go's ordering loop and TLC checks, for every digraph on 3 (quick) / 4 (thorough, 65536 graphs) packages, that it yields a topological order or reports a cycle exactly when one is reachable. Loader.tla states the property on execution units (per-file variable initialisers and init functions); all 512 digraphs on 3 packages and seeded random trees up to 12 packages with file splits, vendor/shortened placement, _test.go files, 10 build-constraint header shapes, planted cycles and conflicting clauses are loaded by the real loader and the printed marker order validated by TLC (any topological order accepted; nothing of an ignored file may run; error iff cycle or conflict reachable).",
+   note="tie-breaking between independent packages is not part of the property and is not constrained; stdout order is execution order (single-threaded VM)", ref="6/C15"),
 }
 NOT_YET = {}
 def main():
